@@ -22,4 +22,6 @@ open GlueVerif.C12
 #print axioms registry_keys_unique
 #print axioms load_v_save_v_data
 #print axioms load_v_save_v
+#print axioms unser_recordwise
+#print axioms load_doc_mixed
 #print axioms newest_is_lossless
